@@ -276,3 +276,56 @@ both('t_perm_body0', [E2, 'relation c(i32, i32)', 'relation d(i32, i32)', 'relat
 both('t_renamed', ['relation kante(i32, i32)', 'relation weg(i32, i32)'],
      ['weg(a, b) <-- kante(a, b)', 'weg(a, c) <-- kante(a, b), weg(b, c)'], tags=['twin'],
      twin=('tc_lin', 'S', {'kante': 'edge', 'weg': 'path', 'a': 'x', 'b': 'y', 'c': 'z'}))
+
+# ================================================================ systematic families
+# n recursive clauses with a static clause at every position, conditions in between
+for n in (1, 2, 3, 4):
+    for pos in range(n + 1):
+        cls = []
+        vars_ = ['v%d' % i for i in range(n + 2)]
+        k = 0
+        for i in range(n + 1):
+            if i == pos:
+                cls.append('edge(%s, %s)' % (vars_[k], vars_[k + 1])); k += 1
+            if i < n:
+                if k + 1 < len(vars_):
+                    cls.append('r(%s, %s)' % (vars_[k], vars_[k + 1])); k += 1
+        body = ', '.join(cls)
+        head = 'r(%s, %s)' % (vars_[0], vars_[k])
+        both('fam_rec%d_s%d' % (n, pos), [E2, 'relation r(i32, i32)'], ['r(x, y) <-- edge(x, y)', head + ' <-- ' + body + ', if ' + vars_[0] + ' != ' + vars_[k]],
+             tags=['family', 'rec%d' % n])
+# lattice carriers shipped with ascent_base
+for nm, ty, mk, uses in (
+        ('set', 'Set<i32>', 'Set::singleton(*y)', 'use ascent::lattice::set::Set;'),
+        ('bset', 'BoundedSet<3, i32>', 'BoundedSet::singleton(*y)', 'use ascent::lattice::bounded_set::BoundedSet;'),
+        ('constp', 'ConstPropagation<i32>', 'ConstPropagation::Constant(*y)', 'use ascent::lattice::constant_propagation::ConstPropagation;'),
+        ('ordl', 'OrdLattice<i32>', 'OrdLattice(*y)', 'use ascent::lattice::ord_lattice::OrdLattice;'),
+        ('optdual', 'Option<Dual<i32>>', 'Some(Dual(*y))', ''),
+        ('tuple', '(i32, i32)', '(*y, *x)', ''),
+        ('boolean', 'bool', '*y > 0', '')):
+    both('fam_lat_' + nm, ['relation inp(i32, i32)', 'lattice l(i32, %s)' % ty, 'relation seen(i32)', 'relation step(i32, i32)'],
+         ['l(x, %s) <-- inp(x, y)' % mk, 'l(z, v.clone()) <-- l(x, v), step(x, z)', 'seen(*x) <-- l(x, _)'], uses=uses, tags=['family', 'lattice'])
+# aggregators
+P('fam_aggs', ['relation g(i32, i32, i32)', 'relation k(i32)', 'relation o1(i32, i32)', 'relation o2(i32)', 'relation o3(i32, i64)', 'relation o4(i32, i32)',
+               'relation o5(usize)', 'relation o6(i32)', 'relation o7(i32, i32)'],
+  ['o1(x, m) <-- k(x), agg m = max(v) in g(x, _, v)',
+   'o2(s) <-- agg s = sum(v) in g(_, _, v)',
+   'o3(x, a as i64) <-- k(x), agg a = mean(v) in g(x, 3, v)',
+   'o4(x, m) <-- k(x), agg m = min(v) in g(x, x + 1, v)',
+   'o5(c) <-- agg c = count() in k(_)',
+   'o6(p) <-- agg p = (percentile(50.0))(v) in g(_, _, v)',
+   'o7(a, b) <-- k(z), agg (a, b) = second_pair(v, w) in g(z, v, w)'],
+  pre='   pub fn second_pair<\'a>(inp: impl Iterator<Item = (&\'a i32, &\'a i32)>) -> std::vec::IntoIter<(i32, i32)> { inp.map(|(a, b)| (*a, *b)).take(1).collect::<Vec<_>>().into_iter() }',
+  tags=['family', 'agg'])
+# chains of strata with negation / aggregation in between, recursion on both sides
+both('fam_chain', [E2, 'relation a(i32)', 'relation b(i32)', 'relation c(i32)', 'relation d(i32, usize)', 'relation s(i32)'],
+     ['a(x) <-- s(x)', 'a(y) <-- a(x), edge(x, y)', 'b(x) <-- edge(x, _), !a(x)', 'b(y) <-- b(x), edge(x, y)',
+      'c(x) <-- b(x), !a(x)', 'd(x, n) <-- c(x), agg n = count() in b(_)', 'c(y) <-- c(x), edge(y, x), a(y)'], tags=['family', 'neg', 'agg'])
+# ascent_run with captured locals and a generic signature with separate impl bounds
+P('fam_run_cap', [E2, 'relation path(i32, i32)', 'relation far(i32)'],
+  ['edge(*a, *b) <-- for (a, b) in input.iter()', 'path(x, y) <-- edge(x, y)', 'path(x, z) <-- edge(x, y), path(y, z)',
+   'far(*y) <-- path(start, y), if *y > limit'],
+  macro='ascent_run', params='input: &[(i32, i32)], start: i32, limit: i32', tags=['family', 'run'])
+P('fam_generic_where', ['relation edge(N, N)', 'relation path(N, N)', 'relation src(N)', 'relation reach(N)'],
+  ['path(x, y) <-- edge(x, y)', 'path(x, z) <-- edge(x, y), path(y, z)', 'reach(y) <-- src(x), path(x, y)'],
+  sig='pub struct P<N> where N: Clone + Eq + std::hash::Hash;', tags=['family', 'generic'])
